@@ -19,6 +19,7 @@ import Vicut.Model.Repeat
 import Vicut.Model.Vic
 import Vicut.Model.VimSpec
 import Vicut.Model.Motions
+import Vicut.Model.Words
 
 open Lean Vicut
 
@@ -541,6 +542,15 @@ def opMotion (req : Json) : Json :=
   | none => Json.mkObj [("err", "motion not modelled")]
   | some m => Json.mkObj [("mk", mkJson (evalSimple s m (jnat req "count") (jbool req "appending")))]
 
+/-- `{"op":"word","cls":[0|1|2|3..],"cur":n,"kind":"startFwd"|"endFwd"|"startBwd","big":b,"count":n,"change":b}` -/
+def opWord (req : Json) : Json :=
+  let cls : List Nat := (jarr req "cls").toList.map (fun x => x.getNat?.toOption.getD 3)
+  let k? : Option WKind := match jstr req "kind" with
+    | "startFwd" => some .startFwd | "endFwd" => some .endFwd | "startBwd" => some .startBwd | _ => none
+  match k? with
+  | none => Json.mkObj [("err", "word motion not modelled")]
+  | some k => Json.mkObj [("mk", mkJson (evalWord ⟨cls⟩ (jnat req "cur") k (jbool req "big") (jnat req "count") (jbool req "change")))]
+
 def dispatch (req : Json) : Json :=
   match jstr req "op" with
   | "ping" => Json.mkObj [("pong", true)]
@@ -561,6 +571,7 @@ def dispatch (req : Json) : Json :=
   | "vic" => opVic req
   | "vimspec" => opVimSpec req
   | "motion" => opMotion req
+  | "word" => opWord req
   | op => Json.mkObj [("err", Json.str s!"unknown op {op}")]
 
 partial def loop (h : IO.FS.Stream) (out : IO.FS.Stream) : IO Unit := do
